@@ -145,7 +145,17 @@ func (c *Ctx) sortOf(t types.Type) string {
 			return "Int"
 		}
 		return "Int"
-	case *types.Pointer, *types.Map, *types.Chan, *types.Signature:
+	case *types.Pointer:
+		// a sort alias of Int per pointer type: it is Int to the solver, but heap arrays (cells, slice
+		// elements, map values) are named after the sort, so []*A and []*B get separate arrays. Go's type
+		// system guarantees that they never share memory (unsafe is outside the subset).
+		n := "R." + mangle(shortTypeName(t))
+		if !c.declared["sort:"+n] {
+			c.declared["sort:"+n] = true
+			c.decls = append(c.decls, "(define-sort "+n+" () Int)")
+		}
+		return n
+	case *types.Map, *types.Chan, *types.Signature:
 		return "Int"
 	case *types.Slice:
 		return "Slice"
